@@ -31,6 +31,8 @@ type Result struct {
 	ev        *Event
 	vc        *VC
 	Replay    *ReplayInfo `json:"-"`
+	ScriptQF  string      `json:"-"`
+	Candidate bool        `json:"-"`
 }
 
 func (vc *VC) scriptHead() string {
@@ -80,17 +82,39 @@ func (vc *VC) obligations() []*Result {
 	if vc.fi != nil {
 		fname = vc.fi.qname()
 	}
+	// quantifier-free variant: quantified assumptions dropped (fewer assumptions: still sound for
+	// "unsat"; a "sat" there is only a candidate and is trusted only if it replays on the real code)
+	var headQF strings.Builder
+	for _, l := range strings.Split(head, "\n") {
+		if strings.HasPrefix(l, "(assert (forall") {
+			continue
+		}
+		headQF.WriteString(l + "\n")
+	}
+	var preQF strings.Builder
+	anyQ := false
 	for _, ev := range vc.events {
 		if !ev.Oblig {
+			var a string
 			if ev.Guard == "true" || ev.Guard == "" {
-				fmt.Fprintf(&pre, "(assert %s)\n", ev.Cond)
+				a = fmt.Sprintf("(assert %s)\n", ev.Cond)
 			} else {
-				fmt.Fprintf(&pre, "(assert (=> %s %s))\n", ev.Guard, ev.Cond)
+				a = fmt.Sprintf("(assert (=> %s %s))\n", ev.Guard, ev.Cond)
+			}
+			pre.WriteString(a)
+			if strings.Contains(ev.Cond, "(forall ") || strings.Contains(ev.Cond, "(exists ") {
+				anyQ = true
+			} else {
+				preQF.WriteString(a)
 			}
 			continue
 		}
-		script := head + pre.String() + fmt.Sprintf("(assert (and %s (not %s)))\n(check-sat)\n(get-model)\n", ev.Guard, ev.Cond)
-		out = append(out, &Result{Name: ev.Name, Class: ev.Class, Func: fname, Pos: vc.posStr(ev.Pos), Construct: ev.Construct, Script: script, ev: ev, vc: vc, Quant: ev.Quant})
+		goal := fmt.Sprintf("(assert (and %s (not %s)))\n(check-sat)\n(get-model)\n", ev.Guard, ev.Cond)
+		r := &Result{Name: ev.Name, Class: ev.Class, Func: fname, Pos: vc.posStr(ev.Pos), Construct: ev.Construct, Script: head + pre.String() + goal, ev: ev, vc: vc, Quant: ev.Quant}
+		if anyQ && !strings.Contains(ev.Cond, "(forall ") && !strings.Contains(ev.Cond, "(exists ") {
+			r.ScriptQF = headQF.String() + preQF.String() + goal
+		}
+		out = append(out, r)
 	}
 	return out
 }
@@ -181,6 +205,29 @@ func solveAll(rs []*Result, sec int, two bool, workers int) {
 						break
 					}
 					r.Output += fmt.Sprintf("[%s] %s\n", sp.name, firstLines(out, 3))
+				}
+				if r.Status == "unknown" && r.ScriptQF != "" {
+					fileQ := filepath.Join(dir, fmt.Sprintf("o%d.qf.smt2", i))
+					os.WriteFile(fileQ, []byte(r.ScriptQF), 0644)
+					for _, sp := range []solverSpec{solvers[0], solvers[2]} {
+						st, out, ms := runSolver(sp, fileQ, sec)
+						total += ms
+						if st == "unsat" {
+							if r.Status == "unsat" {
+								r.Second = sp.name + "/qf"
+								break
+							}
+							r.Status, r.Solver = "unsat", sp.name+"/qf"
+							if !two {
+								break
+							}
+						} else if st == "sat" && r.Status != "unsat" {
+							r.Status, r.Solver, r.Model, r.Candidate = "sat", sp.name+"/qf", out, true
+							r.Output += "model from the relaxation without quantified assumptions (a candidate; trusted only if it replays)\n"
+							break
+						}
+					}
+					os.Remove(fileQ)
 				}
 				if two && r.Status == "unsat" && r.Second == "" {
 					r.Status = "unknown"
